@@ -9,7 +9,7 @@ import ast
 
 from ..core.tree import AnalysisError
 from ..core.constfold import Folder
-from ..core.astutil import walk_no_nested, call_name, short, src
+from ..core.astutil import walk_no_nested, call_name, short, src, kwarg, resolve_local
 from ..engines.symeval import SymEvaluator, Poly, Param, SObj, _Path
 from ..engines.affine import check_affine
 from .c02 import merge_keys
@@ -130,20 +130,30 @@ def merging(ctx, report):
         # break before this caption's nodes
         idx_b = lp.body.index(brk[0])
         node_loop = [i for i, n in enumerate(lp.body) if isinstance(n, ast.For) or
-                     (isinstance(n, ast.Expr) and "extend" in src(n))]
+                     (isinstance(n, (ast.Expr, ast.AugAssign)) and ".nodes" in src(n))]
         report.check(bool(node_loop) and idx_b < node_loop[0], "R-ORDER", fn,
                      "the separator precedes the nodes of the next caption", None, "2")
     capt = [c for c in walk_no_nested(fn.node) if isinstance(c, ast.Call) and call_name(c) == "Caption"]
-    ok = len(capt) == 1 and len(capt[0].args) >= 3 and src(capt[0].args[0]) == "captions[0].start" \
-        and src(capt[0].args[1]) == "captions[0].end"
     if len(capt) != 1:
         raise AnalysisError("merge: Caption(...) construction not found")
+    param = fn.params[0]
+    got = []
+    for k, name in ((0, "start"), (1, "end")):
+        a = capt[0].args[k] if len(capt[0].args) > k else kwarg(capt[0], name)
+        got.append(src(resolve_local(fn, a)) if a is not None else None)
+    ok = got == [f"{param}[0].start", f"{param}[0].end"]
     report.check(ok, "R-FIELD-ROUTING", (fn, capt[0]), "merged caption carries the first caption's start and end",
-                 short(capt[0]), "2")
-    nodes_src = [n for n in walk_no_nested(lp) if isinstance(n, ast.For) and n is not lp]
-    ok = bool(nodes_src) and all(src(n.iter).endswith(".nodes") for n in nodes_src)
+                 {"start_and_end_arguments_resolve_to": got}, "2")
+    loopvar = src(lp.target)
+    contrib = [src(n.iter) for n in walk_no_nested(lp) if isinstance(n, ast.For) and n is not lp]
+    contrib += [src(c.args[0]) for c in walk_no_nested(lp) if isinstance(c, ast.Call) and isinstance(c.func, ast.Attribute)
+                and c.func.attr == "extend" and len(c.args) == 1]
+    contrib += [src(n.value) for n in walk_no_nested(lp) if isinstance(n, ast.AugAssign) and isinstance(n.op, ast.Add)]
+    if not contrib:
+        raise AnalysisError("merge: no statement adds a caption's nodes to the merged list (shape not recognised)")
+    ok = all(c == f"{loopvar}.nodes" for c in contrib)
     report.check(ok, "R-APPEND-ORDER", fn, "all nodes of every merged caption are appended in order",
-                 [short(n.iter) for n in nodes_src], "2")
+                 {"sources": contrib, "required": f"{loopvar}.nodes"}, "2")
 
 
 def merge_keys_only_base(ctx, report):
